@@ -16,7 +16,7 @@ pub static DEF: PropDef = PropDef {
   cases,
   run,
   stack_mb: 64,
-  case_cpu_s: 60.0,
+  case_cpu_s: 10.0,
   crash_is_event: false,
   rule: "Schemas are generated in the core fragment plus the CBOR-only constructs (bstr and byte-string literals, #6.n(t), #n and #7.m, undefined, non-text member keys and key domains uint/int/nint/bstr, boundary integers up to the 64-bit head range); per schema up to 10 data items (heuristic members, near misses incl. duplicated pairs, unrelated values). (a) The canonical encoding's verdict from validate_cbor_from_slice is compared with R-eval (three-valued; floats by value, #0.m..#5.m and #6.<t> unspecified). (b) Metamorphic: each item is additionally encoded in 3 random encodings (indefinite lengths, widened heads, float16/32/64 when value-preserving, chunked strings); every encoding is first checked to decode to the same item in the harness's RFC 8949 model, then all verdicts must equal the canonical one. Disagreements are shrunk on schema and item, steering away from listed constructs. Non-trivial = schema with >= 3 construct tags with both an accepted and a rejected item; distinct by schema text.",
   assumptions: &[
@@ -134,6 +134,9 @@ fn run(ctx: &mut Ctx, _idx: u64) {
       v,
       4000,
       &mut |cg, cv| {
+        if !gs::wellformed(cg) {
+          return false;
+        }
         let mm = vcore::model(cg, cv, false);
         if mm == Tri::Unspec || (mm == Tri::Acc) == want_impl {
           return false;
